@@ -9,8 +9,12 @@ import warnings
 import impl
 
 
+class ResultShapeError(AssertionError):
+    """the result table does not have one row per input row"""
+
+
 def simulate(df, date, targets=None, rounding=True, debug=False, params=None, functions=None,
-             minimal="ignore", fill_missing=True, **kw):
+             minimal="ignore", fill_missing=True, scramble_index=True, **kw):
     """compute_taxes_and_transfers; returns (DataFrame, warnings list) or raises.
     date: ordinal | iso string | datetime.date.  With fill_missing, root columns the system asks for
     that the generator does not know (pre-2015 systems) are added as zeros."""
@@ -28,6 +32,21 @@ def simulate(df, date, targets=None, rounding=True, debug=False, params=None, fu
         params = p0 if params is None else params
         functions = f0 if functions is None else functions
     data = df
+    # index labels must not matter (C01): unless the caller chose labels, the table is passed with labels that are
+    # neither sorted nor 0..n-1, so that any alignment by label inside the engine scrambles the result visibly
+    # (the harness reads results by position)
+    if scramble_index and hasattr(df, "index") and hasattr(df, "columns"):
+        import pandas as pd
+
+        if isinstance(df.index, pd.RangeIndex) and df.index.start == 0 and df.index.step == 1 and len(df) > 1:
+            import numpy as np
+
+            data = df.copy()
+            perm = np.random.RandomState(len(df)).permutation(len(df))
+            if (perm == np.arange(len(df))).all():
+                perm = perm[::-1]
+            # mostly a permutation of 0..n-1 (a label-aligned result is then silently attached to other rows); for some sizes labels outside 0..n-1
+            data.index = perm if len(df) % 3 else perm * 3 + 1000
     for _ in range(3):
         try:
             with warnings.catch_warnings(record=True) as w:
@@ -35,6 +54,8 @@ def simulate(df, date, targets=None, rounding=True, debug=False, params=None, fu
                 out = compute_taxes_and_transfers(
                     data=data, params=params, functions=functions, targets=targets, rounding=rounding,
                     debug=debug, check_minimal_specification=minimal, **kw)
+            if hasattr(out, "shape") and hasattr(data, "shape") and len(out) != len(data):
+                raise ResultShapeError(f"result has {len(out)} rows for {len(data)} input rows (index labels of the input: {list(data.index[:6])} ...)")
             return out, w
         except ValueError as ex:
             msg = str(ex)
